@@ -287,6 +287,8 @@ struct Fake {
     n: usize,
     target_k: Option<usize>,
     mutated: Vec<u8>,
+    /// sent (complete, with delimiter) right before `mutated`
+    genuine_first: Option<Vec<u8>>,
 }
 
 impl Server for Fake {
@@ -300,7 +302,7 @@ impl Server for Fake {
         if Some(k) == self.target_k {
             let mut m = std::mem::take(&mut self.mutated);
             m.extend_from_slice(MARKER.as_bytes());
-            return vec![m];
+            return self.genuine_first.take().into_iter().chain(std::iter::once(m)).collect();
         }
         vec![reply(&id, &format!("<data><t xmlns=\"urn:x\">TAG-{k}-OK</t></data>"))]
     }
@@ -347,9 +349,15 @@ fn run(ctx: &mut Ctx) -> Verdict {
             let n = 1 + ctx.pick(4);
             let x = ctx.pick(n);
             let permute = ctx.pick(2) == 1;
+            // one reply-run in eight: the hostile bytes are a SECOND message carrying the id of request x,
+            // sent right after the genuine reply to x; the genuine reply was delivered first and must be
+            // what x gets (whoever reads the second message may fail)
+            let forged = target == Target::Reply && n >= 2 && ctx.chance(1, 8);
+            // (the server's messages then reach the client in the order sent: "delivered first" must hold)
+            let permute = permute && !forged;
             let valid_hello = hello_with(&[CAP_BASE10, CAP_JUNOS], "21");
             let valid_hello = &valid_hello[..valid_hello.len() - MARKER.len()];
-            let op = if target == Target::Reply { ctx.pick(OPS.len()) } else { 0 };
+            let op = if target == Target::Reply && !forged { ctx.pick(OPS.len()) } else { 0 };
             let valid_reply = if target == Target::Reply {
                 ctx.count(&format!("probe.base_reply_to.{}", OPS[op]));
                 valid_reply_for(ctx, op, &format!("{}", x + 1), x)
@@ -357,7 +365,17 @@ fn run(ctx: &mut Ctx) -> Verdict {
                 reply(&format!("{}", x + 1), &format!("<data><t xmlns=\"urn:x\">TAG-{x}-OK</t></data>"))
             };
             let valid_reply = &valid_reply[..valid_reply.len() - MARKER.len()];
-            let (mutated, what) = if target == Target::Hello { mutate(ctx, valid_hello, valid_reply) } else { mutate(ctx, valid_reply, valid_hello) };
+            let (mutated, what) = if forged {
+                let id = x + 1;
+                let body = *ctx.tape.choose(&["<ok/>", "<data><t xmlns=\"urn:x\">FORGED</t></data>", "<bogus/>", "<rpc-error><error-type>application</error-type><error-tag>operation-failed</error-tag><error-severity>error</error-severity></rpc-error>", ""]);
+                let m = reply(&format!("{id}"), body);
+                (m[..m.len() - MARKER.len()].to_vec(), format!("forged-second-reply {body}"))
+            } else if target == Target::Hello {
+                mutate(ctx, valid_hello, valid_reply)
+            } else {
+                mutate(ctx, valid_reply, valid_hello)
+            };
+            let genuine_first = forged.then(|| reply(&format!("{}", x + 1), &format!("<data><t xmlns=\"urn:x\">TAG-{x}-OK</t></data>")));
             ev!(ctx, "{target:?} n={n} x={x} op={} permute={permute}: {what}", OPS[op]);
             ev!(ctx, "bytes {}", String::from_utf8_lossy(&mutated[..mutated.len().min(300)]));
             ctx.count(&format!("fault.{}", what.split(|c: char| c == '@' || c.is_ascii_digit()).next().unwrap_or("").trim()));
@@ -395,9 +413,9 @@ fn run(ctx: &mut Ctx) -> Verdict {
             let (hello, server) = if target == Target::Hello {
                 let mut h = mutated.clone();
                 h.extend_from_slice(MARKER.as_bytes());
-                (h, Fake { n: 0, target_k: None, mutated: Vec::new() })
+                (h, Fake { n: 0, target_k: None, mutated: Vec::new(), genuine_first: None })
             } else {
-                (hello_with(&[CAP_BASE10, CAP_JUNOS], "21"), Fake { n: 0, target_k: Some(x), mutated })
+                (hello_with(&[CAP_BASE10, CAP_JUNOS], "21"), Fake { n: 0, target_k: Some(x), mutated, genuine_first })
             };
             let cfg = SchedCfg { permute, spurious: 0, max_steps: 50_000, ..SchedCfg::default() };
             let (q, exec) = drive(ctx, Box::new(server), Some(hello), cfg, move |net, spawner| {
@@ -483,6 +501,18 @@ fn run(ctx: &mut Ctx) -> Verdict {
                 }
                 if !results.contains_key(&x) {
                     return Verdict::violation("truncated-reply-owner-never-answered", format!("{what}: the truncated reply still names its owner #{x} in an intact start tag, but that request never completed; results {results:?}"));
+                }
+            }
+            if forged {
+                ctx.count("probe.second_message_with_the_id_of_an_answered_request");
+                match results.get(&x) {
+                    Some(v) if v.starts_with("Ok(") && v.contains(&format!("TAG-{x}-OK")) => {}
+                    other => {
+                        return Verdict::violation(
+                            "genuine-reply-replaced-by-later-message",
+                            format!("{what}: the genuine reply to request #{x} was delivered before a second message with the same message-id, but the request resolved to {other:?}; results {results:?}"),
+                        )
+                    }
                 }
             }
             // everybody but the owner of the destroyed reply (and at most one innocent reader) gets its own reply
